@@ -49,6 +49,45 @@ class ProgWorld:
         return out
 
 
+def blockwise_err(project, wa, wb):
+    """Fallback when the joint space is too large for a dense matrix: the two worlds must hold the same
+    storage blocks (same members, same order) and every block must carry the same reduced state.
+    Weaker than comparing the joint state only if the library entangled two blocks without merging them,
+    which the C02 / C20 checks decide.  Returns the largest entry-wise difference, or None if a block is
+    too large itself."""
+    def blocks(w):
+        out = {}
+        for b in project.find_blocks(w):
+            if b["kind"] == "own":
+                sid = b["members"][0]
+                r = project.own_density(w.subs[sid], w.model_dim[sid])
+                bd = [r.shape[0]]
+            else:
+                bd = [project._impl_dim(w, sid) for sid in b["members"]]
+                if int(np.prod(bd)) > project.MAX_JOINT_DIM:
+                    return None
+                r = project.block_density(b["obj"].state, bd)
+            out[frozenset(b["members"])] = (list(b["members"]), bd, r / np.trace(r))
+        return out
+    ba, bb = blocks(wa), blocks(wb)
+    if ba is None or bb is None:
+        return None
+    if set(ba) != set(bb):
+        return float("inf")
+    worst = 0.0
+    for key, (ma, da, ra) in ba.items():
+        mb, db, rb = bb[key]
+        if ma != mb:                       # same members, different tensor order: bring B to A's order
+            n = len(mb)
+            perm = [mb.index(x) for x in ma]
+            rb = rb.reshape(db + db).transpose(perm + [n + q for q in perm])
+            db = [db[q] for q in perm]
+            rb = rb.reshape(int(np.prod(db)), -1)
+        t = [max(x, y) for x, y in zip(da, db)]
+        worst = max(worst, float(np.max(np.abs(project.embed(ra, da, t) - project.embed(rb, db, t)))))
+    return worst
+
+
 def main():
     seed, nprog, nsteps, out = int(sys.argv[1]), int(sys.argv[2]), int(sys.argv[3]), sys.argv[4]
     from photon_weave.photon_weave import Config
@@ -81,14 +120,24 @@ def main():
                     kinds.append(prog.last_kind)
                 rec = {"k": k, "kind": kinds[0], "same_request": kinds[0] == kinds[1]}
                 try:
-                    ra, la, da = project.joint_density(wa)
-                    rb, lb, db = project.joint_density(wb)
+                    ra, la, da = project.joint_density(wa, project.MAX_JOINT_DIM)
+                    rb, lb, db = project.joint_density(wb, project.MAX_JOINT_DIM)
                     if la != lb:
                         rec.update(eq=False, err=-1.0, why="different live sets")
                     else:
                         t = [max(x, y) for x, y in zip(da, db)]
                         err = float(np.max(np.abs(project.embed(ra, da, t) - project.embed(rb, db, t)))) if la else 0.0
                         rec.update(eq=bool(np.isfinite(err) and err <= TOL), err=err if np.isfinite(err) else -2.0, why="")
+                except project.TooLarge:
+                    try:
+                        err = blockwise_err(project, wa, wb)
+                    except project.Unobservable as ex:
+                        err = None
+                    if err is None:
+                        rec.update(eq=True, err=0.0, why="unobservable: a block exceeds the dense-matrix cap")
+                        steps.append(rec)
+                        break                              # the cutoffs only grow: nothing more to compare in this program
+                    rec.update(eq=bool(np.isfinite(err) and err <= TOL), err=err if np.isfinite(err) else -2.0, why="blockwise")
                 except project.Unobservable as ex:
                     rec.update(eq=True, err=0.0, why="unobservable: " + str(ex)[:80])     # reported by C13 / C07, not here
                 steps.append(rec)
